@@ -8,6 +8,10 @@ def build(P):
     C02.setup(P)
     # a waiting parent task is completed on every terminal path of the child, before the notification
     P.verify(E.SE + "StateEngine.end_execution", R.end_execution_contract(), tags=("C15",))
+    from contracts import handlers as H
+    H.setup(P)
+    P.reg.externals.insert(0, [e for e in P.reg.externals if e[0] == "self.task_dispatcher.handle_sfn_response"][-1]) if False else None
+    H.add_handlers(P, ("C15",))
     P.native("child-executions", "natives.c15:children", kind="bounded", clause="C15:",
              bound="7 cases on the real engine + task dispatcher: .sync:2 / .sync / startExecution with a succeeding child, a failing "
                    "child, unknown machine, .sync from an EXPRESS parent, startSyncExecution of a STANDARD child (FIFO schedule)")
